@@ -29,15 +29,18 @@
                         request's parent is pending and delivered; deps >= number of
                         pending children; a delivered request's children are available
                         or pending under it; membatch ∪ store closed under children).
+   ROUND 4: C12_sync_complete  FULL for the HASH scheme with the account callback, all
+     histories incl. code deliveries and intermediate Commits: completeness AND exactness
+     (see the theorem). Supersedes C12_sync_complete_partial.
    ROUND 3: C12_nothing_lost  FULL (both schemes, with callback, every per-depth bound,
      all histories): no pending request ever leaves the queue without being handed out.
-   NOT PROVED: completeness through the account callback (storage tries and codes:
-     the lemmas inv_upd / inv_sched / inv_remove / inv_cnr are general, what is missing
-     is children_loop with on_account, process_code and Commit inside a history),
+   NOT PROVED: termination from C12_nothing_lost + eventual delivery (reaching
+     Pending() = 0 is a hypothesis of C12_sync_complete), that Commit succeeds, the link
+     RN = c07/c11's nodes_of of an expanded trie (needs decode(encode n) = collapse n),
      deps = (not just >=) the number of pending children, sync_progress,
      sync_order_irrelevant, and everything about completeness in the PATH scheme (needs
      the prefix argument that deletions never hit a completed subtree). *)
-From GV Require Import Trie.Node Trie.Hash Storage.KV Trie.Sync Trie.SyncProofs Trie.SyncInv Trie.SyncComplete Trie.SyncQueue.
+From GV Require Import Trie.Node Trie.Hash Storage.KV Trie.Sync Trie.SyncProofs Trie.SyncInv Trie.SyncComplete Trie.SyncQueue Trie.SyncCallback.
 
 (* the delivery composition (hash check, then ProcessNode) rejects a blob whose hash
    differs from the requested one and changes nothing *)
@@ -161,6 +164,63 @@ Theorem C12_sync_complete_partial :
     forall p h cb, RN H T root CbNone p h cb -> has h (sc_db s') = true.
 Proof. exact sync_complete_nocallback. Qed.
 Print Assumptions C12_sync_complete_partial.
+
+(* COMPLETENESS AND EXACTNESS, HASH scheme, WITH the account callback (storage tries
+   and codes scheduled as children of the node holding the account leaf; deps counters;
+   children committed before parents), over ALL histories of Missing(k) / node deliveries
+   / code deliveries / Commit (run_wf4: a delivered node is checked against the hash of
+   the request it answers and a blob passing the check is the serving side's blob for
+   that hash; a code passing the check is the serving side's code; ProcessNode did not
+   report a callback error, a Go panic or the model's representation limit).
+   Hypotheses on the target (T = node blobs by hash, CD = codes by hash, RN / RC =
+   nodes_of / codes_of the target, reachable from the root through the account leaves):
+   a hash is not both an account-trie and a storage-trie node; no node hash is 32 zero
+   bytes; node hashes have 32 bytes; the destination db0 agrees with the target where
+   they overlap and is closed under children (closedA).
+   Then, when Pending() = 0, the database after Commit
+     - contains every node of the target under its hash,
+     - contains every code of the target under its code key,
+     - and contains NOTHING ELSE beyond its initial content: every entry is an initial
+       entry, or (hash, blob) of a target node, or (code key, code) of a target code. *)
+Theorem C12_sync_complete :
+  forall (H : list N -> list N) (T CD : list N -> option (list N)) (root : list N) (cb0 : cbkind)
+         (db0 : kv),
+    (forall p h cb p' cb', RN H T root cb0 p h cb -> RN H T root cb0 p' h cb' -> cb = cb') ->
+    (forall p h cb, RN H T root cb0 p h cb -> h <> zero32) ->
+    (forall p h cb, RN H T root cb0 p h cb -> length h = 32%nat) ->
+    (forall k v, get k db0 = Some v ->
+       (forall b, RNh H T root cb0 k -> T k = Some b -> v = b) /\
+       (forall h c, k = code_key h -> RC H T root cb0 h -> CD h = Some c -> v = c)) ->
+    forall (ops : list op) (s' : sync),
+    closedA H T root cb0 db0 ->
+    let s0 := unsum (new_sync H false db0 root cb0) in
+    run_wf4 H T CD s0 ops ->
+    pending (run H s0 ops) = O ->
+    commit (run H s0 ops) = Some s' ->
+    (forall p h cb, RN H T root cb0 p h cb -> has h (sc_db s') = true) /\
+    (forall c, RC H T root cb0 c -> has (code_key c) (sc_db s') = true) /\
+    (forall k v, get k (sc_db s') = Some v ->
+       get k db0 = Some v \/ (RNh H T root cb0 k /\ T k = Some v) \/
+       (exists h, k = code_key h /\ RC H T root cb0 h /\ CD h = Some v)).
+Proof. exact sync_complete_callback. Qed.
+Print Assumptions C12_sync_complete.
+
+(* non-vacuity of C12_sync_complete: a branch with three leaves under a toy 32-byte hash,
+   empty destination; the history (Missing, a corrupted and the honest root delivery,
+   Missing(2), a leaf, Commit, Missing, the other leaves with a duplicate) satisfies every
+   hypothesis, ends with Pending() = 0, and Commit stores exactly the 4 nodes *)
+Example C12_complete_nonvacuous :
+  (forall p h cb p' cb', RN toyH ex_T q_root CbNone p h cb -> RN toyH ex_T q_root CbNone p' h cb' -> cb = cb') /\
+  (forall p h cb, RN toyH ex_T q_root CbNone p h cb -> h <> zero32) /\
+  (forall p h cb, RN toyH ex_T q_root CbNone p h cb -> length h = 32%nat) /\
+  (forall k v, get k [] = Some v ->
+     (forall b, RNh toyH ex_T q_root CbNone k -> ex_T k = Some b -> v = b) /\
+     (forall h c, k = code_key h -> RC toyH ex_T q_root CbNone h -> ex_CD h = Some c -> v = c)) /\
+  closedA toyH ex_T q_root CbNone [] /\
+  run_wf4 toyH ex_T ex_CD ex4_s0 ex4_ops /\
+  pending (run toyH ex4_s0 ex4_ops) = O /\
+  (exists s', commit (run toyH ex4_s0 ex4_ops) = Some s' /\ length (sc_db s') = 4%nat).
+Proof. exact ex4_hyps. Qed.
 
 (* NOTHING IS LOST FROM THE QUEUE (liveness-relevant, both schemes, with the account
    callback, EVERY per-depth bound).  op3 histories: Missing with an arbitrary bound mfd
